@@ -218,26 +218,48 @@ type keySpec struct {
 	name string
 	add  func(b fpgo.SortDescriptorsBuilder[Row], asc bool) fpgo.SortDescriptorsBuilder[Row]
 	cmp  func(a, b Row) int // natural order of the key
+	desc func(asc bool) fpgo.SortDescriptor[Row] // the same key as a descriptor object (for ThenWith)
 }
 
 func keySpecs() []keySpec {
 	return []keySpec{
 		{"K1(transformer,ComparableOrdered)", func(b fpgo.SortDescriptorsBuilder[Row], asc bool) fpgo.SortDescriptorsBuilder[Row] {
 			return b.ThenWithTransformerFunctor(func(x Row) fpgo.Comparable[interface{}] { return x.K1 }, asc)
-		}, func(a, b Row) int { return a.K1.Val - b.K1.Val }},
+		}, func(a, b Row) int { return a.K1.Val - b.K1.Val }, nil},
 		{"K2(field name,ComparableString)", func(b fpgo.SortDescriptorsBuilder[Row], asc bool) fpgo.SortDescriptorsBuilder[Row] {
 			return b.ThenWithFieldName("K2", asc)
-		}, func(a, b Row) int { return strings.Compare(a.K2.Val, b.K2.Val) }},
+		}, func(a, b Row) int { return strings.Compare(a.K2.Val, b.K2.Val) }, nil},
 		{"K3(transformer,ComparableOrdered)", func(b fpgo.SortDescriptorsBuilder[Row], asc bool) fpgo.SortDescriptorsBuilder[Row] {
 			return b.ThenWithTransformerFunctor(func(x Row) fpgo.Comparable[interface{}] { return fpgo.NewComparableOrdered(x.K3) }, asc)
-		}, func(a, b Row) int { return a.K3 - b.K3 }},
+		}, func(a, b Row) int { return a.K3 - b.K3 }, nil},
 		{"K1(field name,ComparableOrdered)", func(b fpgo.SortDescriptorsBuilder[Row], asc bool) fpgo.SortDescriptorsBuilder[Row] {
 			return b.ThenWithFieldName("K1", asc)
-		}, func(a, b Row) int { return a.K1.Val - b.K1.Val }},
+		}, func(a, b Row) int { return a.K1.Val - b.K1.Val }, nil},
 		{"K2(transformer,ComparableString)", func(b fpgo.SortDescriptorsBuilder[Row], asc bool) fpgo.SortDescriptorsBuilder[Row] {
 			return b.ThenWithTransformerFunctor(func(x Row) fpgo.Comparable[interface{}] { return x.K2 }, asc)
-		}, func(a, b Row) int { return strings.Compare(a.K2.Val, b.K2.Val) }},
+		}, func(a, b Row) int { return strings.Compare(a.K2.Val, b.K2.Val) }, nil},
 	}
+}
+
+// withDescs adds the descriptor-object form of every key.
+func withDescs(specs []keySpec) []keySpec {
+	tf := []func(x Row) fpgo.Comparable[interface{}]{
+		func(x Row) fpgo.Comparable[interface{}] { return x.K1 },
+		nil,
+		func(x Row) fpgo.Comparable[interface{}] { return fpgo.NewComparableOrdered(x.K3) },
+		nil,
+		func(x Row) fpgo.Comparable[interface{}] { return x.K2 },
+	}
+	field := []string{"", "K2", "", "K1", ""}
+	for i := range specs {
+		i := i
+		if field[i] != "" {
+			specs[i].desc = func(asc bool) fpgo.SortDescriptor[Row] { return fpgo.NewFieldSortDescriptor[Row](field[i], asc) }
+		} else {
+			specs[i].desc = func(asc bool) fpgo.SortDescriptor[Row] { return fpgo.NewSimpleSortDescriptor(tf[i], asc) }
+		}
+	}
+	return specs
 }
 
 func renderRows(l []Row) string {
@@ -249,7 +271,7 @@ func renderRows(l []Row) string {
 }
 
 func descriptors(maxLen int) {
-	specs := keySpecs()
+	specs := withDescs(keySpecs())
 	// rows over K1 in {0,1}, K2 in {a,b}, K3 in {0,1}: 8 symbols
 	var syms []Row
 	for k1 := 0; k1 < 2; k1++ {
@@ -360,12 +382,21 @@ func descriptors(maxLen int) {
 		}
 		for _, in := range lists {
 			inputs++
-			for _, api := range []string{"ToSortedList", "SortedListBySortDescriptors", "Builder.Sort"} {
+			var objs []fpgo.SortDescriptor[Row]
+			for i, k := range st.keys {
+				objs = append(objs, specs[k].desc(st.asc[i]))
+			}
+			for _, api := range []string{"ToSortedList", "SortedListBySortDescriptors", "Builder.Sort", "ThenWith(descriptors).ToSortedList", "SortBySortDescriptors"} {
 				evals++
 				l := append([]Row{}, in...)
 				var out []Row
 				p := lib.Catch(func() {
 					switch api {
+					case "ThenWith(descriptors).ToSortedList":
+						out = fpgo.NewSortDescriptorsBuilder[Row]().ThenWith(objs...).ToSortedList(l...)
+					case "SortBySortDescriptors":
+						fpgo.SortBySortDescriptors(objs, l)
+						out = l
 					case "ToSortedList":
 						out = b.ToSortedList(l...)
 					case "SortedListBySortDescriptors":
@@ -379,7 +410,7 @@ func descriptors(maxLen int) {
 					bad(api, "panic", "%s by %v on %s: %s", api, names, renderRows(in), p)
 					continue
 				}
-				if api != "Builder.Sort" && renderRows(l) != renderRows(in) {
+				if api != "Builder.Sort" && api != "SortBySortDescriptors" && renderRows(l) != renderRows(in) {
 					bad(api, "input-modified", "%s by %v changed its input %s to %s", api, names, renderRows(in), renderRows(l))
 				}
 				if len(out) != len(in) {
